@@ -24,6 +24,7 @@
 package main
 
 import (
+	"fmt"
 	"time"
 
 	"verif/vlib"
@@ -81,8 +82,14 @@ func main() {
 	}
 	// Clock-correction phase (tdelta.go). dateutil.SetDelta is process-global, so this is a
 	// sequential phase of its own, after everything else; every case restores delta 0.
-	// First a slice of the sections above re-run under a correction (they must be unaffected),
-	// then the timed get under every correction of clockDeltas.
+	// First the timed get under every correction of clockDeltas, then a slice of the sections
+	// above re-run under a correction (they must be unaffected).
+	for kind, tag := range []string{"rq", "dq"} {
+		kind := kind
+		timed("tdelta", func() {
+			c.Cases("tdelta-"+tag, n(16, 240, 4, 48), func(i int, r *vlib.Rand) { tdeltaCase(c, kind, i, r) })
+		})
+	}
 	secSuffix = "-cd"
 	for kind, tag := range []string{"rq", "dq"} {
 		kind := kind
@@ -97,12 +104,6 @@ func main() {
 		})
 	}
 	secSuffix = ""
-	for kind, tag := range []string{"rq", "dq"} {
-		kind := kind
-		timed("tdelta", func() {
-			c.Cases("tdelta-"+tag, n(16, 240, 4, 48), func(i int, r *vlib.Rand) { tdeltaCase(c, kind, i, r) })
-		})
-	}
 	if len(abandonedSections) > 0 {
 		c.Count("abandoned_sections", int64(len(abandonedSections)))
 	}
@@ -123,6 +124,13 @@ func main() {
 		c.Floor("lin_histories_with_overlap", 20, c.Counter("lin_histories_with_overlap"))
 		c.Floor("wake_returns_after_put", 30, c.Counter("wake_returns_after_put"))
 		c.Floor("timed_gets", 4, c.Counter("timed_gets"))
+		c.Floor("cd_cases", 10, c.Counter("cd_cases"))
+		c.Floor("tdelta_gets", 30, c.Counter("tdelta_gets"))
+	}
+	// every clock correction was really exercised by empty timed gets that returned
+	for _, d := range clockDeltas {
+		k := fmt.Sprintf("tdelta_empty_gets_delta_%dms", d)
+		c.Floor(k, 1, c.Counter(k))
 	}
 	c.Finish()
 }
